@@ -245,10 +245,25 @@ func c20ParseTrace(tracePath, cfg string, nUpdates int) ([][]c20Call, error) {
 		}
 		out[cur] = append(out[cur], c)
 	}
+	// strace -f splits a call when another thread's event comes in between:
+	//   123 openat(AT_FDCWD, "x", O_WRONLY <unfinished ...>      ...      123 <... openat resumed>) = 7
+	pendingCall := map[string]string{}
+	reUnfinished := regexp.MustCompile(`^(\d+)\s+(.*) <unfinished \.\.\.>\s*$`)
+	reResumed := regexp.MustCompile(`^(\d+)\s+<\.\.\. \w+ resumed>(.*)$`)
 	for {
 		line, err := rd.ReadString('\n')
 		if len(line) > 0 {
-			handle(line)
+			tl := strings.TrimRight(line, "\n")
+			if m := reUnfinished.FindStringSubmatch(tl); m != nil {
+				pendingCall[m[1]] = m[1] + " " + m[2]
+			} else if m := reResumed.FindStringSubmatch(tl); m != nil {
+				if pre, ok := pendingCall[m[1]]; ok {
+					delete(pendingCall, m[1])
+					handle(pre + m[2])
+				}
+			} else {
+				handle(line)
+			}
 		}
 		if err == io.EOF {
 			break
